@@ -4,7 +4,7 @@
 //! schedule is an interleaving of the k scripts plus, for every step, the worker thread that
 //! executes it (the object is moved there). Exactly one thread runs at a time, so every
 //! execution is deterministic and replayable. Oracle: every output bit-identical to the same
-//! script run alone on the main thread.
+//! script run alone in a fresh process (and, sequentially, alone on a fresh thread of this one).
 
 use crate::cfg::{Cfg, Degree, Interp, Kernel, Kind};
 use crate::frame::{Check, JournalFile, Tier};
@@ -46,6 +46,44 @@ fn build(cfg: &Cfg, instance: usize) -> Result<Box<Runner<f64>>, String> {
     let mut r = Runner::<f64>::new(cfg, Signal::NoiseCh(7 * instance))?;
     r.keep_out = true;
     Ok(Box::new(r))
+}
+
+fn solo(cfg: &Cfg, instance: usize, partial: bool) -> Result<Vec<StepOut>, String> {
+    crate::run::install_panic_hook();
+    let mut r = build(cfg, instance)?;
+    let mut outs = Vec::new();
+    for ops in script(cfg, partial) {
+        outs.push(exec(&mut r, &ops));
+    }
+    Ok(outs)
+}
+
+/// `hx c18ref <mix> <instance>`: the script of one instance in this (fresh) process, as JSON.
+pub fn reference_main(mix: usize, instance: usize) -> i32 {
+    let Some(m) = mixes().into_iter().nth(mix) else { return 2 };
+    let Some(cfg) = m.cfgs.get(instance) else { return 2 };
+    match solo(cfg, instance, m.partial) {
+        Ok(outs) => {
+            println!("{}", serde_json::to_string(&outs).unwrap());
+            0
+        }
+        Err(e) => {
+            eprintln!("{}", e);
+            2
+        }
+    }
+}
+
+fn fresh_process_reference(mix: usize, instance: usize) -> Result<Vec<StepOut>, String> {
+    let exe = std::env::current_exe().map_err(|e| e.to_string())?;
+    let out = std::process::Command::new(exe)
+        .args(["c18ref", &mix.to_string(), &instance.to_string()])
+        .output()
+        .map_err(|e| format!("c18ref: {}", e))?;
+    if !out.status.success() {
+        return Err(format!("c18ref {} {} failed: {}", mix, instance, String::from_utf8_lossy(&out.stderr)));
+    }
+    serde_json::from_slice(&out.stdout).map_err(|e| format!("c18ref output: {}", e))
 }
 
 fn worker_loop(rx: Receiver<Job>, tx: Sender<Done>) {
@@ -276,24 +314,28 @@ const M: usize = 3;
 
 fn run_schedules(mix: &Mix, item: &Item, journal: Option<&JournalFile>) -> Result<Value, String> {
     let k = mix.cfgs.len();
-    // ---- reference: each script alone on this thread
-    // (each on a fresh thread of its own, so that not even thread-local state is shared)
+    // ---- reference: each script alone in a process of its own (`hx c18ref`), so that not even
+    // process-wide state left behind by another instance (or by the other references) is shared
     let mut reference: Vec<Vec<StepOut>> = Vec::new();
+    for i in 0..k {
+        reference.push(fresh_process_reference(item.mix, i)?);
+    }
+    let mut found: Vec<Value> = Vec::new();
+    // the same scripts alone on fresh threads of this process, one after the other: whatever the
+    // earlier ones left behind in the process must not show
     for (i, cfg) in mix.cfgs.iter().enumerate() {
         let cfg = cfg.clone();
         let partial = mix.partial;
-        let outs = std::thread::spawn(move || -> Result<Vec<StepOut>, String> {
-            crate::run::install_panic_hook();
-            let mut r = build(&cfg, i)?;
-            let mut outs = Vec::new();
-            for ops in script(&cfg, partial) {
-                outs.push(exec(&mut r, &ops));
-            }
-            Ok(outs)
-        })
-        .join()
-        .map_err(|_| "reference thread panicked".to_string())??;
-        reference.push(outs);
+        let outs = std::thread::spawn(move || solo(&cfg, i, partial))
+            .join()
+            .map_err(|_| "reference thread panicked".to_string())??;
+        if outs != reference[i] {
+            found.push(json!({
+                "prop": "C18", "sig": "earlier-instance-changes-output",
+                "detail": format!("mix '{}': instance {} run alone on a fresh thread after instances 0..{} were constructed and dropped in this process differs from the same script in a fresh process", mix.name, i, i),
+                "cfg": mix.cfgs[i].to_json(), "history": "", "point": format!("mix={} sequential", mix.name),
+            }));
+        }
     }
     let inter = interleavings(k, M);
     let steps = k * M;
@@ -303,7 +345,6 @@ fn run_schedules(mix: &Mix, item: &Item, journal: Option<&JournalFile>) -> Resul
     };
     let mut schedules = 0u64;
     let mut transitions = 0u64;
-    let mut found: Vec<Value> = Vec::new();
     let mut sample: Option<Value> = None;
     let mut outcome_set: std::collections::BTreeSet<String> = Default::default();
     for (ii, order) in inter.iter().enumerate() {
